@@ -219,6 +219,41 @@ fn build_cases(tier: Tier) -> Vec<(String, Vec<Case>)> {
     }
     groups.push(("(i-b) size ladder".into(), g));
 
+    // (i-c) values: spectra holding NaN, infinities, negative, huge, subnormal and long-digit entries,
+    // through every statistic and option (the tool itself writes `nan` and `inf` when folding)
+    let mut g = Vec::new();
+    let value_sets: Vec<(&str, Vec<&str>)> = vec![
+        ("nan", vec!["nan", "1", "2", "3", "4", "NaN", "5", "6", "7"]),
+        ("one-nan", vec!["1", "2", "3", "4", "5", "6", "7", "8", "nan"]),
+        ("inf", vec!["inf", "1", "2", "3", "4", "5", "6", "7", "-inf"]),
+        ("inf-middle", vec!["1", "inf", "2", "3", "inf", "5", "6", "7", "8"]),
+        ("negative", vec!["-1", "2", "-3", "4", "-5", "6", "-7", "8", "-9"]),
+        ("cancelling", vec!["1", "-1", "2", "-2", "0", "3", "-3", "4", "-4"]),
+        ("zeros", vec!["0", "0", "0", "0", "0", "0", "0", "0", "0"]),
+        ("huge", vec!["1e300", "1e308", "2e307", "1e19", "18446744073709551616", "9223372036854775808", "1e20", "1e100", "1.7976931348623157e308"]),
+        ("long-digits", vec!["100000000000000000000", "18446744073709551615", "18446744073709551616", "00000000000000000000007", "123456789012345678901234567890", "1", "2", "3", "4"]),
+        ("tiny", vec!["1e-310", "2e-310", "5e-324", "1e-300", "0", "1e-320", "3e-310", "1e-315", "4e-310"]),
+        ("spellings", vec!["+1", "1.", ".5", "1e3", "1E+03", "Infinity", "-0", "-0.0", "1e-0"]),
+    ];
+    for (name, vals) in &value_sets {
+        for shape in [vec![9usize], vec![3, 3]] {
+            let sh: Vec<String> = shape.iter().map(|n| n.to_string()).collect();
+            let input = Arc::new(format!("#SHAPE=<{}>\n{}\n", sh.join("/"), vals.join(" ")).into_bytes());
+            let cls = format!("values={name}");
+            for st in ALL_STATS {
+                g.push(case(&["stat", "-s", st], &input, &cls, format!("stat -s {st} on a {}-axis spectrum with {name} values", shape.len())));
+            }
+            let ones = vec!["1"; shape.len()].join(",");
+            for o in [
+                vec!["view"], vec!["view", "--precision", "0"], vec!["view", "--precision", "17"], vec!["view", "-O", "npy"], vec!["view", "--normalize"], vec!["view", "--mask-monomorphic", "--normalize"],
+                vec!["view", "-p", &ones], vec!["view", "-m", "0"], vec!["fold"], vec!["fold", "--precision", "0"], vec!["fold", "--fill", "inf", "--precision", "0"], vec!["fold", "--fill", "zero"],
+            ] {
+                g.push(case(&o, &input, &cls, format!("{} on a {}-axis spectrum with {name} values", o.join(" "), shape.len())));
+            }
+        }
+    }
+    groups.push(("(i-c) unusual values".into(), g));
+
     // (ii) view / fold single options x shape
     let mut g = Vec::new();
     for s in &all_shapes {
@@ -335,6 +370,13 @@ fn build_cases(tier: Tier) -> Vec<(String, Vec<Case>)> {
         for argv in [vec!["view"], vec!["fold"], vec!["stat", "-s", "sum"], vec!["view", "-O", "npy"], vec!["view", "-m", "0"]] {
             g.push(case(&argv, &input, "zero-axis-next-to-absurd-axes", format!("{} on text header #SHAPE=<{sh}> without values", argv.join(" "))));
         }
+    }
+    // every number of unit axes around the point where the npy 1.0 header no longer fits its 16-bit
+    // length field (the padded length, not the dict, has to fit)
+    for d in 21_790usize..=21_860 {
+        let sh = vec!["1"; d].join("/");
+        let input = Arc::new(format!("#SHAPE=<{sh}>\n7\n").into_bytes());
+        g.push(case(&["view", "-O", "npy"], &input, "thousands-of-axes", format!("view -O npy on a spectrum with {d} axes of length 1")));
     }
     // thousands of axes: the npy 1.0 header length field holds at most 65 535 bytes (about 21 800 unit axes)
     for d in [1000usize, 21_000, 21_800, 21_840, 21_900, 22_000, 30_000] {
